@@ -54,7 +54,8 @@ macro_rules! c08_shape {
 c08_shape!(c08_q_rect_queries, |tl, sz| Rectangle::new(tl, sz), |c| Rectangle::with_center(c, sz));
 c08_shape!(c08_q_circle_queries, |tl, sz| Circle::new(tl, sz.width), |c| Circle::with_center(c, sz.width));
 c08_shape!(c08_q_ellipse_queries, |tl, sz| Ellipse::new(tl, sz), |c| Ellipse::with_center(c, sz));
-c08_shape!(c08_q_rrect_eq_queries, |tl, sz| RoundedRectangle::with_equal_corners(Rectangle::new(tl, sz), Size::new(17, 40)), |c| Rectangle::with_center(c, sz));
+#[cfg(feature = "thorough")]
+c08_shape!(c08_t_rrect_eq_queries, |tl, sz| RoundedRectangle::with_equal_corners(Rectangle::new(tl, sz), Size::new(17, 40)), |c| Rectangle::with_center(c, sz));
 #[cfg(feature = "thorough")]
 c08_shape!(c08_t_rrect_queries, |tl, sz| RoundedRectangle::new(Rectangle::new(tl, sz), CornerRadii { top_left: dsize(), top_right: dsize(), bottom_right: dsize(), bottom_left: dsize() }), |c| Rectangle::with_center(c, sz));
 
@@ -73,24 +74,27 @@ pub fn c08_q_sector_arc_queries() {
     reach!(sink, "reach.some_true");
 }
 
-/// first steps of every points()/pixels() iterator at display scale (constructors + first rows)
-#[cfg_attr(kani, kani::proof, kani::unwind(70))]
+/// first steps of points() iterators at display scale (constructor + first item)
+#[cfg_attr(kani, kani::proof, kani::unwind(6))]
 pub fn c08_q_iter_first_steps() {
     let tl = dpoint();
     let sz = dsize();
-    let st = any_style();
-    note!("top_left", tl); note!("size", sz); note!("style", st);
-    let which = pick(4);
-    note!("shape", which);
-    kani::assume(which > 1 || sz.width <= 64);
+    note!("top_left", tl); note!("size", sz);
     let mut n = 0u32;
-    match which {
-        0 => { let mut it = Circle::new(tl, sz.width).points(); if it.next().is_some() { n += 1; } }
-        1 => { let mut it = Ellipse::new(tl, Size::new(sz.width, 3)).points(); if it.next().is_some() { n += 1; } }
-        2 => { let mut it = Line::new(tl, dpoint()).points(); if it.next().is_some() { n += 1; } if it.next().is_some() { n += 1; } }
-        _ => { let mut it = Rectangle::new(tl, sz).points(); if it.next().is_some() { n += 1; } if it.next().is_some() { n += 1; } }
-    }
-    reach!(n == 2, "reach.two_items");
+    let mut it = Line::new(tl, dpoint()).points();
+    if it.next().is_some() { n += 1; }
+    if it.next().is_some() { n += 1; }
+    let mut it = Rectangle::new(tl, sz).points();
+    if it.next().is_some() { n += 1; }
+    if it.next().is_some() { n += 1; }
+    // circle / ellipse: the first scanline search runs over up to `width` columns; width <= 4 here,
+    // position and height at display scale
+    let w = upto(4);
+    let mut it = Circle::new(tl, w).points();
+    if it.next().is_some() { n += 1; }
+    let mut it = Ellipse::new(tl, Size::new(w, sz.height)).points();
+    if it.next().is_some() { n += 1; }
+    reach!(n == 6, "reach.all_items");
 }
 
 /// images, sub-images and the framebuffer reject out-of-range coordinates without a panic
@@ -186,7 +190,9 @@ pub fn $name() {
 }
 c08_degenerate!(c08_q_degenerate_w0_fill, style(0, StrokeAlignment::Center, Some(Gray8::new(1)), None));
 c08_degenerate!(c08_q_degenerate_w1_both, style(1, StrokeAlignment::Inside, Some(Gray8::new(1)), Some(Gray8::new(2))));
-c08_degenerate!(c08_q_degenerate_w5_stroke, style(5, StrokeAlignment::Center, None, Some(Gray8::new(2))));
+c08_degenerate!(c08_q_degenerate_w2_stroke, style(2, StrokeAlignment::Center, None, Some(Gray8::new(2))));
+#[cfg(feature = "thorough")]
+c08_degenerate!(c08_t_degenerate_w5_stroke, style(5, StrokeAlignment::Center, None, Some(Gray8::new(2))));
 #[cfg(feature = "thorough")]
 c08_degenerate!(c08_t_degenerate_w2_outside, style(2, StrokeAlignment::Outside, Some(Gray8::new(1)), Some(Gray8::new(2))));
 
@@ -232,8 +238,9 @@ pub mod kernels {
         let r = hk::line_intersection(&l1, &l2);
         reach!(r.is_some(), "reach.intersect");
     }
+    #[cfg(feature = "thorough")]
     #[cfg_attr(kani, kani::proof, kani::unwind(8))]
-    pub fn c08_q_k_extents() {
+    pub fn c08_t_k_extents() {
         let l = Line::new(dpoint(), dpoint());
         let w = upto(4);
         note!("line", l); note!("width", w);
